@@ -76,14 +76,41 @@ const spinLimit = 2000
 // without any other thread taking a step in between is taken to be in a retry loop.
 const spinRepeat = 12
 
-var runLabels = map[string]int{}
+// runLabels counts, per scheduling-point label, the steps of the current uninterrupted run of one thread. A slice
+// (not a map): map operations are instrumented by the race detector even inside //go:norace functions.
+type labelCount struct {
+	l string
+	n int
+}
+
+var runLabels []labelCount
+
+//go:norace
+func runLabelsReset() { runLabels = runLabels[:0] }
+
+//go:norace
+func runLabelsInc(l string) {
+	for i := range runLabels {
+		if runLabels[i].l == l {
+			runLabels[i].n++
+			return
+		}
+	}
+	runLabels = append(runLabels, labelCount{l, 1})
+}
 
 //go:norace
 func spinning() bool {
 	if last < 0 || last >= len(threads) {
 		return false
 	}
-	return runLabels[threads[last].label] >= spinRepeat
+	l := threads[last].label
+	for i := range runLabels {
+		if runLabels[i].l == l {
+			return runLabels[i].n >= spinRepeat
+		}
+	}
+	return false
 }
 
 const (
@@ -230,7 +257,36 @@ func SchedStale(kind int, obj Waitable, label string, onStale func()) {
 	t.onStale = nil
 }
 
-var siteCache = map[uintptr]string{}
+// siteCache: pc -> function name, an open-addressed table (no map: see runLabels).
+type siteEntry struct {
+	pc uintptr
+	s  string
+}
+
+var siteCache [8192]siteEntry
+
+//go:norace
+func siteLookup(pc uintptr) (string, bool) {
+	for i, h := 0, int(pc>>2)&8191; i < 64; i, h = i+1, (h+1)&8191 {
+		if siteCache[h].pc == pc {
+			return siteCache[h].s, true
+		}
+		if siteCache[h].pc == 0 {
+			return "", false
+		}
+	}
+	return "", false
+}
+
+//go:norace
+func siteStore(pc uintptr, s string) {
+	for i, h := 0, int(pc>>2)&8191; i < 64; i, h = i+1, (h+1)&8191 {
+		if siteCache[h].pc == 0 || siteCache[h].pc == pc {
+			siteCache[h] = siteEntry{pc, s}
+			return
+		}
+	}
+}
 
 // site returns the name of the nearest calling function outside the shim packages.
 //
@@ -240,13 +296,13 @@ func site() string {
 	n := runtime.Callers(3, pcs[:])
 	for i := 0; i < n; i++ {
 		pc := pcs[i]
-		s, ok := siteCache[pc]
+		s, ok := siteLookup(pc)
 		if !ok {
 			s = "?"
 			if f := runtime.FuncForPC(pc - 1); f != nil {
 				s = f.Name()
 			}
-			siteCache[pc] = s
+			siteStore(pc, s)
 		}
 		if !strings.Contains(s, "/vshim/") {
 			return s
@@ -349,7 +405,7 @@ func decide() int32 {
 			}
 			if bt.id != last {
 				consec = 0
-				runLabels = map[string]int{}
+				runLabelsReset()
 			}
 			last = bt.id
 			return int32(bt.id)
@@ -429,7 +485,7 @@ func decide() int32 {
 			// explorer unroll the loop.
 			lastEnabled = false
 			consec = 0
-			runLabels = map[string]int{}
+			runLabelsReset()
 			exec.ForcedYields++
 			if cfg.TraceOn {
 				exec.Trace = append(exec.Trace, fmt.Sprintf("forced-yield: progs=%v prefixlen=%d points=%d", progs, len(prefix), len(exec.Points)))
@@ -506,9 +562,9 @@ func decide() int32 {
 			consec++
 		} else {
 			consec = 0
-			runLabels = map[string]int{}
+			runLabelsReset()
 		}
-		runLabels[t.label]++
+		runLabelsInc(t.label)
 		last = a
 		return int32(a)
 	}
@@ -743,6 +799,10 @@ func GoDaemon(name string, f func()) *Thread {
 //go:norace
 func SpawnFromEvent(name string, f func()) { spawn(f, false, name) }
 
+// joinHB: a finished thread releases, the joiner acquires (goroutine exit -> join is a happens-before edge in any
+// real join primitive).
+var joinHB int32
+
 type joinWait struct{ t *Thread }
 
 //go:norace
@@ -751,7 +811,10 @@ func (j *joinWait) VrtReady(int) bool { return j.t.done }
 // Join blocks (visibly) until t has finished.
 //
 //go:norace
-func Join(t *Thread) { Sched(KJoin, &joinWait{t}, "join") }
+func Join(t *Thread) {
+	Sched(KJoin, &joinWait{t}, "join")
+	atomic.LoadInt32(&joinHB)
+}
 
 //go:norace
 func (t *Thread) Done() bool { return t.done }
@@ -776,6 +839,7 @@ func threadExit(t *Thread) {
 		n := runtime.Stack(buf, false)
 		exec.Panics = append(exec.Panics, fmt.Sprintf("t%d(%s): %v\n%s", t.id, t.Name, r, buf[:n]))
 	}
+	atomic.AddInt32(&joinHB, 1)
 	t.done = true
 	t.obj = nil
 	cur = t
@@ -802,7 +866,7 @@ func RunOnce(c *Config, pfx []int, body func()) *Exec {
 	blockedSince = 0
 	noBranch = false
 	consec = 0
-	runLabels = map[string]int{}
+	runLabelsReset()
 	prefix = pfx
 	exec = &Exec{}
 	last = -1
